@@ -9,6 +9,7 @@ Inductive step :=
 | SSet (fs : list Z) (code : Z)                    (* set_order_fee_discount_factors; 0 = Ok, else error code *)
 | SRef (f : Z)                                     (* insert factor order_fee_discount_for_referred_user *)
 | SRank (rank : Z) (r : res Z)                     (* GtState::order_fee_discount_factor *)
+| SInit (ranks : list Z) (gs : Z) (code : Z)        (* a second GtState::init on the initialised state *)
 | SQuery (rank : Z) (p0 s0 p1 s1 : res Z).         (* discount(rank, false) program / SDK, discount(rank, true) program / SDK *)
 
 Inductive case :=
@@ -27,6 +28,7 @@ Fixpoint corr_steps (w unit : Z) (st : gstate) (l : list step) : bool :=
       (code_of res =? code) && corr_steps w unit (match res with Ok st' => st' | Err _ => st end) r
   | SRef f :: r => corr_steps w unit (set_ref st f) r
   | SRank rank x :: r => reqb (rank_factor st rank) x && corr_steps w unit st r
+  | SInit ranks gs code :: r => (code_of (gt_init st true gs ranks) =? code) && corr_steps w unit st r
   | SQuery rank p0 s0 p1 s1 :: r =>
       reqb (discount w unit st rank false) p0 && reqb (sdk_discount w unit st rank false) s0 &&
       reqb (discount w unit st rank true) p1 && reqb (sdk_discount w unit st rank true) s1 &&
@@ -63,6 +65,9 @@ Fixpoint oracle_steps (w u mr : Z) (tbl : list Z) (b : Z) (l : list step) : bool
   | SRank rank x :: r =>
       (if mr <? rank then reqb x (Err 1) else reqb x (Ok (nth (Z.to_nat rank) tbl 0))) &&
       oracle_steps w u mr tbl b r
+  | SInit _ _ code :: r =>
+      (* re-initialisation is refused, so max_rank and the table cannot be reset *)
+      (code =? 6) && oracle_steps w u mr tbl b r
   | SQuery rank p0 s0 p1 s1 :: r =>
       (* the SDK computes the same discount as the program *)
       reqb p0 s0 && reqb p1 s1 &&
